@@ -251,8 +251,10 @@ def leave (saved : St) (_inner : St) : St := { cwd := saved.cwd, cpd := saved.cp
 one string (`parse_value_or_config`), which is not a list; the retry then hands
 the *original spelling* to `adapt_typehints` inside `change_to_path_dir(file)`,
 where it is resolved a second time.  It names the same file again iff it is
-absolute or has no directory part (no symlinks, and nothing else lives at the
-second location: guaranteed by the harness fixture). -/
+absolute or has no directory part.  Assumptions (guaranteed by the harness
+fixture): no symlinks, nothing else lives at the second location, and the
+spelling climbs (`..`) only through directories that exist, so that the lexical
+`normAbs` agrees with the kernel's resolution. -/
 def listRefStable (base ref : P) : Bool :=
   normAbs (mkPath ref ref (normAbs (cfgDir base ref))).absolute == normAbs (mkPath ref ref base).absolute
 
